@@ -39,27 +39,28 @@ theorem lookup_none_of_not_mem {α β : Type} [DecidableEq α] {l : List (α × 
     simp only [this, if_false]
     exact ih (fun p hp => h p (by simp [hp]))
 
-/-- well-formed state: every recorded task id is below `next` -/
+/-- well-formed state: every recorded task id is below `next`; every cached task records its request -/
 structure Good (st : St) : Prop where
   names_lt : ∀ p ∈ st.names, p.1 < st.next
   beh_lt : ∀ p ∈ st.behaviour, p.1 < st.next
-  cache_beh : ∀ n t r, lookup st.useCache n = some (t, r) → lookup st.behaviour t = some (.use r)
-  cache_name : ∀ n t r, lookup st.useCache n = some (t, r) → useName st r = n
+  cache_beh : ∀ e ∈ st.useCache, lookup st.behaviour e.2.1 = some (.use e.2.2)
+  cache_lt : ∀ e ∈ st.useCache, e.2.1 < st.next
 
 /-- `st'` extends `st`: nothing recorded is forgotten or changed -/
 structure Ext (st st' : St) : Prop where
   next_le : st.next ≤ st'.next
   names : ∀ t, t < st.next → lookup st'.names t = lookup st.names t
   beh : ∀ t, t < st.next → lookup st'.behaviour t = lookup st.behaviour t
-  cache : ∀ n x, lookup st.useCache n = some x → lookup st'.useCache n = some x
+  cache : ∃ l, st'.useCache = st.useCache ++ l
 
-theorem Ext.refl (st : St) : Ext st st := ⟨Nat.le_refl _, fun _ _ => rfl, fun _ _ => rfl, fun _ _ h => h⟩
+theorem Ext.refl (st : St) : Ext st st := ⟨Nat.le_refl _, fun _ _ => rfl, fun _ _ => rfl, ⟨[], by simp⟩⟩
 
 theorem Ext.trans {a b c : St} (h1 : Ext a b) (h2 : Ext b c) : Ext a c :=
   ⟨Nat.le_trans h1.next_le h2.next_le,
    fun t ht => (h2.names t (Nat.lt_of_lt_of_le ht h1.next_le)).trans (h1.names t ht),
    fun t ht => (h2.beh t (Nat.lt_of_lt_of_le ht h1.next_le)).trans (h1.beh t ht),
-   fun n x h => h2.cache n x (h1.cache n x h)⟩
+   by obtain ⟨l1, e1⟩ := h1.cache; obtain ⟨l2, e2⟩ := h2.cache
+      exact ⟨l1 ++ l2, by rw [e2, e1, List.append_assoc]⟩⟩
 
 theorem Good.init : Good St.init := by
   constructor <;> simp [St.init, lookup]
